@@ -5,6 +5,7 @@ import (
 	"fmt"
 	"time"
 
+	"github.com/ipfs/go-cid"
 	cidlink "github.com/ipld/go-ipld-prime/linking/cid"
 	"github.com/ipni/go-libipni/dagsync"
 
@@ -338,9 +339,16 @@ func runBacklog(sc Scenario) (res Result) {
 		return conv(l.recv)
 	}
 	// cancel one stalled listener with its whole backlog queued, then let it read
-	cancelled.cancel()
+	if ok, _ := subdrv.Call(watchdog, func() { cancelled.cancel() }); !ok {
+		res.fail("backlog:cancel-blocked", fmt.Sprintf("the cancel func of a listener %d notifications behind did not return within %v", n, watchdog))
+		return
+	}
 	cRecv := drain(cancelled, "cancel")
-	subdrv.Call(watchdog, func() { w.Sub.Close() })
+	if ok, _ := subdrv.Call(watchdog, func() { w.Sub.Close() }); !ok {
+		res.fail("close:blocked", fmt.Sprintf("Close did not return within %v with listeners %d notifications behind", watchdog, n))
+		closed = true
+		return
+	}
 	closed = true
 	tRecv := drain(tillClose, "close")
 sparseLoop:
@@ -580,4 +588,124 @@ func firstBad(want []Ev, ls []ObsListener) []Ev {
 		}
 	}
 	return nil
+}
+
+// runCloseDuringAsync: an announce-triggered sync is in flight when Close starts - held in the
+// middle of its fetch by the publisher (point "gate:block": Close cancels it) or at a yield
+// point of the async path (released once Close has signalled closing: it completes or is
+// cancelled).  Whatever its fate, it is a sync that ran: every listener registered before must
+// receive exactly one notification for it (the result or the error), after the earlier
+// notification and before its channel is closed.
+func runCloseDuringAsync(sc Scenario) (res Result) {
+	res.Sc = sc
+	t0 := time.Now()
+	point := sc.Rounds[0][0].Kind
+	p := subdrv.NewPub(0, sc.Seed)
+	defer p.Close()
+	p.Extend(4)
+	pubs := []*subdrv.Pub{p}
+	var sched *subdrv.Sched
+	p.SetGate(func(_ *subdrv.Pub, kind string, c cid.Cid) int {
+		if point == "gate:block" && kind == "block" && p.Index(c) == 2 {
+			// the head block (#3) has been fetched; hold the next one until Close has
+			// cancelled the sync and waited for it (or give up after a while)
+			sched.Signal("gate:block", 0)
+			sched.WaitFor("close:async-waited", -1, 1, 1500*time.Millisecond)
+		}
+		return 0
+	})
+	w := subdrv.NewWorld(pubs)
+	var rules []subdrv.Rule
+	nth := 1
+	if point != "gate:block" {
+		if point == "handle:locked" || point == "handle:unlocking" || point == "event:latest-set" {
+			nth = 2 // the explicit sync of the setup passes these first
+		}
+		rules = []subdrv.Rule{{Point: point, Peer: 0, Nth: nth, Until: "close:closing-closed", UntilPeer: -1, UntilNth: 1, MaxMs: 1000}}
+	}
+	sched = subdrv.NewSched(pubs, rules, nil, 0)
+	sched.Install()
+	defer sched.Uninstall()
+	closed := false
+	defer func() {
+		if !closed {
+			subdrv.Call(watchdog, func() { w.Sub.Close() })
+		}
+	}()
+	var ls []*liveListener
+	for _, spec := range sc.Listeners {
+		l := &liveListener{spec: spec, done: make(chan struct{}), start: make(chan struct{})}
+		l.ch, l.cancel = w.Sub.OnSyncFinished()
+		go l.reader()
+		ls = append(ls, l)
+	}
+	p.SetHead(1)
+	if _, err := w.Sub.SyncAdChain(context.Background(), p.Info()); err != nil {
+		res.fail("closing:setup", err.Error())
+		return
+	}
+	p.SetHead(3)
+	if err := w.Sub.Announce(context.Background(), p.Chain[3], p.Info()); err != nil {
+		res.fail("closing:setup", "Announce: "+err.Error())
+		return
+	}
+	if !sched.WaitFor(point, 0, nth, watchdog) {
+		res.fail("closing:setup", "the announce-triggered sync never reached "+point)
+		return
+	}
+	ok, _ := subdrv.Call(2*watchdog, func() { w.Sub.Close() })
+	closed = true
+	if !ok {
+		res.fail("close:blocked", "Close did not return")
+	}
+	var obs []ObsListener
+	sawErr, sawOk := false, false
+	for i, l := range ls {
+		close(l.start)
+		select {
+		case <-l.done:
+		case <-subdrv.After(watchdog):
+			res.fail("listener:not-closed:"+l.spec.Kind, fmt.Sprintf("listener %d: channel not closed by Close", i))
+		}
+		l.mu.Lock()
+		var recv []Ev
+		for _, e := range l.recv {
+			ci := p.Index(e.Cid)
+			ev := Ev{Sid: ci / 2, Pub: 0, Cid: ci, Cnt: e.Count, Err: e.Err != nil, Async: ci == 3}
+			if ci == 3 {
+				if ev.Err {
+					sawErr = true
+				} else {
+					sawOk = true
+				}
+			}
+			recv = append(recv, ev)
+		}
+		o := ObsListener{Spec: l.spec, Recv: recv, Closed: l.closed}
+		l.mu.Unlock()
+		obs = append(obs, o)
+	}
+	res.Listeners = obs
+	// the one notification owed for the in-flight sync: its result, or its error if Close cancelled it
+	second := Ev{Sid: 1, Async: true, Pub: 0, Cid: 3, Cnt: 2}
+	if sawErr {
+		second = Ev{Sid: 1, Async: true, Pub: 0, Cid: 3, Err: true}
+	}
+	want := []Ev{{Sid: 0, Pub: 0, Cid: 1, Cnt: 2}, second}
+	res.Fwd = want
+	if sawErr && sawOk {
+		res.fail("closing-async:two-fates:"+point, "some listeners received a result and others an error for the same announce-triggered sync")
+	}
+	lost := 0
+	for _, o := range obs {
+		if !windowOK(want, o) {
+			lost++
+		}
+	}
+	if lost > 0 {
+		res.fail(fmt.Sprintf("closing-async:event-lost:%s:%d-listeners", point, len(ls)),
+			fmt.Sprintf("an announce-triggered sync was in flight (at %s) when Close started: %d of the %d listeners registered before did not receive exactly one notification for it (result or error) after the earlier one and before their channel closed (e.g. %s)", point, lost, len(ls), evs(firstBad(want, obs))))
+	}
+	res.DurMs = float64(time.Since(t0).Microseconds()) / 1000
+	return res
 }
